@@ -10,6 +10,7 @@
 import JinjaV.Lemmas.AutoescClean
 import JinjaV.Model.SelectAutoescape
 import JinjaV.Gen.MarkupSites
+import JinjaV.Model.AutoescRegion
 
 namespace JinjaV.C15
 open JinjaV.Escape JinjaV.HtmlFilt JinjaV.Autoesc
@@ -51,6 +52,53 @@ def exTerm : Tm :=
 
 example : outOn (fun l => [l]) exTerm [.plain "<m1>".toList] =
     "[&lt;m1&gt;a\n&lt;m1&gt;b &lt;m1&gt;&#39;a\nb &lt;m1&gt;&lt;i&gt;]".toList := by decide +kernel
+
+/-! ## lexical autoescape regions (known finding C15:autoescape-region-around-block) -/
+
+section Region
+open JinjaV.AutoescRegion
+
+/-- **region_partial**: lexical `{% autoescape %}` regions decide the escaping of everything written inside them — the
+    engine's rendering equals the specified one — **provided no `{% block %}` tag sits in a region whose mode differs from the
+    template-level mode** (`blocksAgree`).  Without the proviso the statement is false (`AutoescRegion.RegionStatement`,
+    refuted in Findings/F20.lean: known finding C15:autoescape-region-around-block). -/
+theorem region_partial (tmode cur : Bool) (b : Body) (h : blocksAgree tmode cur b = true) :
+    render tmode cur b = renderSpec cur b := by
+  induction b generalizing cur with
+  | data s => rfl
+  | text t => rfl
+  | seq a b iha ihb =>
+    simp only [blocksAgree, Bool.and_eq_true] at h
+    simp only [render, renderSpec, iha cur h.1, ihb cur h.2]
+  | region m b ih => exact ih m h
+  | block b ih =>
+    simp only [blocksAgree, Bool.and_eq_true, beq_iff_eq] at h
+    obtain ⟨rfl, h2⟩ := h
+    exact ih cur h2
+
+/-- under that proviso, data written inside an autoescape-on region is escaped: with `<>"'`-free template text and no
+    autoescape-off region inside, the region's output is free of `< > " '` -/
+theorem region_clean (tmode : Bool) (b : Body) (h : blocksAgree tmode true b = true) (hoff : noOffRegion b = true)
+    (ht : textsMFree b) : MFree (render tmode true b) := by
+  rw [region_partial tmode true b h]
+  clear h
+  induction b with
+  | data s => exact (escape_esc s).mfree
+  | text t => exact ht
+  | seq a b iha ihb =>
+    simp only [noOffRegion, Bool.and_eq_true] at hoff
+    exact MFree.append (iha hoff.1 ht.1) (ihb hoff.2 ht.2)
+  | region m b ih =>
+    simp only [noOffRegion, Bool.and_eq_true] at hoff
+    have : m = true := hoff.1
+    subst this
+    exact ih hoff.2 ht
+  | block b ih => exact ih hoff ht
+
+example : blocksAgree false false (.region true (.seq (.data "<x>".toList) (.block (.data "y".toList)))) = false ∧
+    blocksAgree true false (.region true (.block (.data "<x>".toList))) = true ∧
+    render true false (.region true (.block (.data "<x>".toList))) = "&lt;x&gt;".toList := by decide +kernel
+end Region
 
 /-! ## where text is marked safe: the inventory READ from the source -/
 
